@@ -62,7 +62,7 @@ STANDINS = [
      "timeout": {"quick": 900, "thorough": 3600}},
     {"name": "search_sweep", "module": "standins.search_sweep", "props": ["C17"],
      "timeout": {"quick": 900, "thorough": 3600}},
-    {"name": "history", "module": "standins.history", "props": ["C03"],
+    {"name": "history", "module": "standins.history", "props": ["C03", "C01", "C07", "C13"],
      "timeout": {"quick": 900, "thorough": 3600}},
     {"name": "calendars_sweep", "module": "standins.calendars_sweep", "props": ["C15"],
      "timeout": {"quick": 900, "thorough": 7200}},
